@@ -828,3 +828,65 @@ package saml2
 //@   exit [C16] payload: err == nil ==> data.SAMLResponse == b64enc(respBuf)
 //@   exit [C16] relay: err == nil ==> data.RelayState == relayState
 //@   exit [C16] output: err == nil ==> out == rendered(tmpl.$text, data)
+
+// ---------------------------------------------------------------------------
+// HTTP-Redirect binding (C14)
+// ---------------------------------------------------------------------------
+
+// The octet string that is signed: SAMLRequest=v1[&RelayState=v2]&SigAlg=v3 with the same escaping function
+// (url.QueryEscape) that Values.Encode applies when the URL is rendered.
+//@ pure func SignedOctets(samlRequest string, relayState string, sigAlg string) string {
+//@   return relayState == "" ? esc("SAMLRequest") + "=" + esc(samlRequest) + "&" + esc("SigAlg") + "=" + esc(sigAlg)
+//@        : esc("SAMLRequest") + "=" + esc(samlRequest) + "&" + esc("RelayState") + "=" + esc(relayState) + "&" + esc("SigAlg") + "=" + esc(sigAlg)
+//@ }
+// (esc is the identity on the three parameter names: axiom url.esc.names)
+//@ func signatureInputString(samlRequest string, relayState string, sigAlg string) (result string)
+//@   nomerge
+//@   frame [C17]
+//@   assigns nothing
+//@   ensures [C14] octets: result == SignedOctets(samlRequest, relayState, sigAlg)
+
+// Configuration invariant of the redirect flows: the IdP endpoint does not itself carry the reserved parameters.
+//@ pure func NoReservedParams(raw string) bool {
+//@   return !hasKey(queryKeys(urlParsed(raw).RawQuery), "SAMLRequest") && !hasKey(queryKeys(urlParsed(raw).RawQuery), "RelayState")
+//@       && !hasKey(queryKeys(urlParsed(raw).RawQuery), "SigAlg") && !hasKey(queryKeys(urlParsed(raw).RawQuery), "Signature")
+//@ }
+//@ pure func SameURLButQuery(u *url.URL, raw string) bool {
+//@   return u.Scheme == urlParsed(raw).Scheme && u.Opaque == urlParsed(raw).Opaque && u.User == urlParsed(raw).User && u.Host == urlParsed(raw).Host
+//@       && u.Path == urlParsed(raw).Path && u.RawPath == urlParsed(raw).RawPath && u.Fragment == urlParsed(raw).Fragment && u.RawFragment == urlParsed(raw).RawFragment
+//@ }
+
+//@ func (sp *SAMLServiceProvider) buildAuthURLFromDocument(relayState string, binding string, doc *etree.Document) (result string, err error)
+//@   requires SPValid(sp) && doc != nil && sp.signingContextMu.$mu == 0 && NoReservedParams(sp.IdentityProviderSSOURL)
+//@   requires (sp.SignAuthnRequests && binding == BindingHttpRedirect) ==> HasSignKey(sp)
+//@   assigns sp.signingContext, sp.signingContextMu.$mu
+//@   exit [C14] endpoint: err == nil ==> SameURLButQuery(parsedUrl, sp.IdentityProviderSSOURL) && result == urlString(*parsedUrl)
+//@   exit [C14] query: err == nil ==> parsedUrl.RawQuery == encodeQuery(qs.$keys, qs.$vals)
+//@   exit [C14] request: err == nil ==> xmlOfRoot(authnRequest) == doc.$root
+//@        && firstFor(qs.$keys, qs.$vals, "SAMLRequest") == b64enc(deflateOf(bytes(authnRequest)))
+//@   exit [C14] relay: err == nil ==> (relayState != "" ==> firstFor(qs.$keys, qs.$vals, "RelayState") == relayState)
+//@        && (relayState == "" ==> !hasKey(qs.$keys, "RelayState"))
+//@   exit [C14] unsigned: err == nil && !(sp.SignAuthnRequests && binding == BindingHttpRedirect) ==>
+//@        !hasKey(qs.$keys, "SigAlg") && !hasKey(qs.$keys, "Signature")
+//@   exit [C14] kept: err == nil ==> (relayState == "" && !(sp.SignAuthnRequests && binding == BindingHttpRedirect)) ==>
+//@        qs.$keys == push(queryKeys(urlParsed(sp.IdentityProviderSSOURL).RawQuery), "SAMLRequest")
+//@   exit [C14] signed: err == nil && sp.SignAuthnRequests && binding == BindingHttpRedirect ==>
+//@        firstFor(qs.$keys, qs.$vals, "SigAlg") == sigAlgOf(ctx)
+//@        && firstFor(qs.$keys, qs.$vals, "Signature") == b64enc(sigBytes(ctx, SignedOctets(firstFor(qs.$keys, qs.$vals, "SAMLRequest"), relayState, sigAlgOf(ctx))))
+//@        && ctx == sp.signingContext
+
+//@ func (sp *SAMLServiceProvider) buildLogoutURLFromDocument(relayState string, binding string, doc *etree.Document) (result string, err error)
+//@   requires SPValid(sp) && doc != nil && sp.signingContextMu.$mu == 0 && NoReservedParams(sp.IdentityProviderSLOURL)
+//@   requires binding == BindingHttpRedirect ==> HasSignKey(sp)
+//@   assigns sp.signingContext, sp.signingContextMu.$mu
+//@   exit [C14] endpoint: err == nil ==> SameURLButQuery(parsedUrl, sp.IdentityProviderSLOURL) && result == urlString(*parsedUrl)
+//@   exit [C14] query: err == nil ==> parsedUrl.RawQuery == encodeQuery(qs.$keys, qs.$vals)
+//@   exit [C14] request: err == nil ==> xmlOfRoot(logoutRequest) == doc.$root
+//@        && firstFor(qs.$keys, qs.$vals, "SAMLRequest") == b64enc(deflateOf(bytes(logoutRequest)))
+//@   exit [C14] relay: err == nil ==> (relayState != "" ==> firstFor(qs.$keys, qs.$vals, "RelayState") == relayState)
+//@        && (relayState == "" ==> !hasKey(qs.$keys, "RelayState"))
+//@   exit [C14] unsigned: err == nil && binding != BindingHttpRedirect ==> !hasKey(qs.$keys, "SigAlg") && !hasKey(qs.$keys, "Signature")
+//@   exit [C14] signed: err == nil && binding == BindingHttpRedirect ==>
+//@        firstFor(qs.$keys, qs.$vals, "SigAlg") == sigAlgOf(ctx)
+//@        && firstFor(qs.$keys, qs.$vals, "Signature") == b64enc(sigBytes(ctx, SignedOctets(firstFor(qs.$keys, qs.$vals, "SAMLRequest"), relayState, sigAlgOf(ctx))))
+//@        && ctx == sp.signingContext
